@@ -39,7 +39,7 @@ Qed.
 
 Lemma init_sys_ok f s n s' c n' ns :
   init_sys f s n = LOk s' c n' ns ->
-  s' = s /\ l_lastid c = t_seqid s /\ l_delid c = 0 /\ l_sess c = [] /\ t_exists s = true.
+  s' = s /\ l_lastid c = t_seqid s /\ l_delid c = t_delid s /\ l_sess c = [] /\ t_exists s = true.
 Proof.
   unfold init_sys. intros H. repeat (break_match_hyp; try discriminate); inv H. cbn.
   destruct (t_exists s'); [auto|discriminate].
@@ -69,19 +69,36 @@ Proof.
   - apply init_sys_ok in H. destruct H as [-> [H1 _]]. auto.
 Qed.
 
-(* ... and delID the stored delid, except for 'sys', whose load never assigns delID *)
+(* ... and delID the stored delid, for every kind (initTopicSys since /repo 91f0ab5) *)
 Lemma load_restores_delid k f s n u1 u2 s' c n' ns :
-  init_topic k f s n u1 u2 = LOk s' c n' ns -> carries_messages k = true -> k <> KSys ->
+  init_topic k f s n u1 u2 = LOk s' c n' ns -> carries_messages k = true ->
   l_delid c = t_delid s' /\ (t_exists s = true -> t_delid s' = t_delid s).
 Proof.
-  destruct k; cbn [init_topic carries_messages]; intros H C NS; try discriminate; try congruence.
+  destruct k; cbn [init_topic carries_messages]; intros H C; try discriminate.
   - apply init_p2p_ok in H. destruct H as [_ [H1 [_ [_ [_ H2]]]]]. split; [exact H1|].
     intros E. rewrite E in H2. tauto.
   - apply init_grp_ok in H. destruct H as [-> [_ [H1 _]]]. auto.
+  - apply init_sys_ok in H. destruct H as [-> [_ [H1 _]]]. auto.
 Qed.
 
-Lemma load_sys_delid_zero f s n s' c n' ns : init_sys f s n = LOk s' c n' ns -> l_delid c = 0.
+Lemma load_sys_delid f s n s' c n' ns : init_sys f s n = LOk s' c n' ns -> l_delid c = t_delid s.
 Proof. intros H. apply init_sys_ok in H. tauto. Qed.
+
+(* the loader as it was before /repo 91f0ab5 left delID at 0 whatever the stored row said *)
+Lemma load_sys_unrepaired_delid_zero f s n s' c n' ns :
+  init_sys_unrepaired f s n = LOk s' c n' ns -> s' = s /\ l_delid c = 0.
+Proof.
+  unfold init_sys_unrepaired. intros H. repeat (break_match_hyp; try discriminate); inv H. cbn. auto.
+Qed.
+Lemma load_restores_delid_unrepaired_refuted :
+  ~ (forall kd f s n u1 u2 s' c n' ns,
+       init_topic_unrepaired kd f s n u1 u2 = LOk s' c n' ns -> carries_messages kd = true -> l_delid c = t_delid s').
+Proof.
+  intros H.
+  specialize (H KSys NoFault (mkStore true 5 3 0 0 0 [] [] [] []) 0%nat 0%N 0%N
+                (mkStore true 5 3 0 0 0 [] [] [] []) (mkLC 5 0 [] []) 2%nat false eq_refl eq_refl).
+  vm_compute in H. discriminate.
+Qed.
 
 (* ------------------------------------------------------------------ *)
 (* numbering invariant                                                  *)
